@@ -630,7 +630,10 @@ func c03scaleSpace(thorough bool) c03space {
 	for _, k := range []string{"not", "neg", "compl", "deref", "ptr-type", "slicetype", "paren", "block"} {
 		deep = append(deep, c03scaleGen{k, 1 << 22, 0})
 	}
-	deep = append(deep, c03scaleGen{"const-chain", 1 << 24, 0}, c03scaleGen{"const-chain", 1 << 17, 0}, c03scaleGen{"chain", 1 << 24, 0})
+	deep = append(deep, c03scaleGen{"const-chain", 1 << 17, 0}, c03scaleGen{"const-chain", 1 << 22, 0}, c03scaleGen{"chain", 1 << 22, 0})
+	if thorough { // 32 MB of source and close to 4 GB of memory each: the size at which the recursive copy of 8adce22 overflowed
+		deep = append(deep, c03scaleGen{"const-chain", 1 << 24, 0}, c03scaleGen{"chain", 1 << 24, 0})
+	}
 	for _, k := range c03recurseKinds {
 		ns := []int{0}
 		if k == "recurse-counted" || k == "recurse-locals" { // terminating: below, around and beyond any plausible limit
